@@ -1168,3 +1168,115 @@ def c06_passive(tr, out, snaps_by_market, case):
 
 def _pl(p):
     return {k: p.get(k) for k in ("o", "tick", "side", "price", "size", "rem", "piq", "atb", "atl", "frags")}
+
+
+# -------------------------------------------------------------------------------------------
+# C02 refused requests change nothing; accepted requests are sent exactly once
+# -------------------------------------------------------------------------------------------
+
+LIMITS = {"Betfair": {"PLACE": 200, "CANCEL": 60, "UPDATE": 60, "REPLACE": 60}, "Betdaq": {"PLACE": 10, "CANCEL": 10, "UPDATE": 50}}
+NEW_ORDER_MAY_CHANGE = {"status", "nlog", "violation_msg", "client", "complete", "views"}
+
+
+def c02_requests(tr, out, exchange="Betfair", exec_class="Simulated"):
+    accepted = collections.Counter()
+    req_order = collections.defaultdict(list)  # (tx, kind, mv) -> [okey...] in request order
+    for r in tr.requests:
+        kind = r["kind"]
+        refused = r.get("result") is False or "exc" in r
+        b, a = r["before"], r.get("after")
+        if refused and b is not None and a is not None:
+            out.rule("refused")
+            diff = view_diff(b, a)
+            # a refused NEW order (never in the blotter) may be (re-)marked as a violation, whatever request is refused on it
+            new_order = not b["in_blotter"] and b["status"] in (None, "VIOLATION")
+            empty_ctx = ((), (), False, None, None)
+            if "rc" in diff and {b["rc"], a["rc"]} <= {None, empty_ctx}:
+                diff.pop("rc")  # an empty runner context created lazily equals no context
+            if new_order:
+                for k in NEW_ORDER_MAY_CHANGE:
+                    diff.pop(k, None)
+                if kind == "PLACE" and r.get("result") is False and (a["status"] != "VIOLATION" or a["in_blotter"]):
+                    out.v("refused-new-order-not-marked", {"exec": exec_class}, request=_rq(r), after=a)
+            if diff:
+                out.v(
+                    "refused-request-mutated-state",
+                    {"kind": kind, "status": b["status"], "fields": ",".join(sorted(diff)), "how": r.get("exc", "refused"), "new_order": new_order, "exec": exec_class},
+                    request=_rq(r),
+                    diff=diff,
+                    msg=r.get("exc_msg"),
+                )
+            if r["pend"][0] != r["pend"][1]:
+                out.v("refused-request-left-something-queued", {"kind": kind, "exec": exec_class}, request=_rq(r), pending=r["pend"])
+            out.d("c02ref:%s:%s:%s:%s" % (kind, b["status"], r.get("exc", "refused"), r["force"]))
+        elif r.get("result") is True and (kind != "PLACE" or r["execute"]):
+            accepted[(r["o"], kind)] += 1
+            out.rule("accepted")
+            out.d("c02acc:%s:%s" % (kind, r["force"]))
+    sent = collections.Counter()
+    for p in tr.packages:
+        out.rule("package")
+        kind = p["kind"]
+        n = len(p["orders"])
+        lim = LIMITS[exchange].get(kind)
+        tags = {"kind": kind, "exchange": exchange}
+        if lim is not None and n > lim:
+            out.v("package-exceeds-per-call-limit", tags, n=n, limit=lim)
+        if n == 0:
+            out.v("empty-package", tags, package=p)
+        for o in p["orders"]:
+            sent[(o, kind)] += 1
+        out.d("c02pkg:%s:%d" % (kind, n if n in (1, 2, lim) else min(n, 3)))
+    for key in set(accepted) | set(sent):
+        if accepted[key] != sent[key]:
+            out.v(
+                "accepted-request-not-sent-exactly-once",
+                {"kind": key[1], "sent": min(sent[key], 2), "accepted": min(accepted[key], 2), "exchange": exchange},
+                order=key[0],
+                accepted=accepted[key],
+                sent=sent[key],
+            )
+    # grouping and order: within one transaction and kind, each package holds one market version and the orders
+    # of a (kind, version) group appear in request order across its chunks
+    by_tx = collections.defaultdict(list)
+    for r in tr.requests:
+        if r.get("result") is True and (r["kind"] != "PLACE" or r["execute"]):
+            by_tx[(r["tx"], r["kind"])].append(r)
+    pk_by_kind = collections.defaultdict(list)
+    for p in tr.packages:
+        pk_by_kind[p["kind"]].append(p)
+    mv_of = {}
+    for r in tr.requests:
+        if r.get("result") is True:
+            mv_of[(r["o"], r["kind"], r["seq"])] = r.get("mv")
+    for (tx, kind), reqs in by_tx.items():
+        groups = collections.OrderedDict()
+        for r in reqs:
+            groups.setdefault(r.get("mv"), []).append(r["o"])
+        for mv, okeys in groups.items():
+            out.rule("group-order")
+            # packages of this kind and version that contain these orders, in emission order
+            got = []
+            seen = set(okeys)
+            for p in pk_by_kind[kind]:
+                if p["orders"] and set(p["orders"]) <= seen and p["mv"] == mv:
+                    got += p["orders"]
+            want = okeys
+            # the same order may legitimately be requested again in a later transaction; compare as subsequence
+            if [o for o in got if o in seen][: len(want)] != want and sorted(got) == sorted(want):
+                out.v("orders-out-of-request-order", {"kind": kind, "exchange": exchange}, want=want[:20], got=got[:20])
+    # every order of a package was requested with the package's market version
+    last_req = {}
+    events = sorted([("r", r["seq"], r) for r in tr.requests if r.get("result") is True] + [("p", p["seq"], p) for p in tr.packages], key=lambda x: x[1])
+    for typ, _, x in events:
+        if typ == "r":
+            last_req[(x["o"], x["kind"])] = x.get("mv")
+        else:
+            out.rule("package-version")
+            bad = [o for o in x["orders"] if last_req.get((o, x["kind"]), x["mv"]) != x["mv"]]
+            if bad:
+                out.v("package-mixes-market-versions", {"kind": x["kind"], "exchange": exchange}, package=x, offending=bad[:5])
+    for e in tr.tx_ends:
+        out.rule("tx-end")
+        if any(e["pending"]) or e["flag"]:
+            out.v("requests-left-queued-after-transaction", {"exchange": exchange, "exc": e["exc"] or "-"}, end=e)
